@@ -215,6 +215,8 @@ func (ls *listenServer) OnMoved(addr string, slot int32, s core.SConn, f *core.F
 	if !ok {
 		logging.Errorf("[%dm|%df][%dc|%ds] moved/ask happen, proxy pool get addr %s failed",
 			f.MsgId(), f.Id, f.OwnerFd(), s.Fd(), addr)
+		// a redirect that cannot be followed fails the request instead of dropping it silently
+		f.Fail(codec.ErrUnKnownProxyPoolError)
 		return
 	}
 
@@ -222,6 +224,7 @@ func (ls *listenServer) OnMoved(addr string, slot int32, s core.SConn, f *core.F
 	if sConn == nil {
 		logging.Errorf("[%dm|%df][%dc|%ds] proxy dial %s failed",
 			f.MsgId(), f.Id, f.OwnerFd(), s.Fd(), addr)
+		f.Fail(codec.ErrUnKnownProxyPoolConnError)
 		return
 	}
 
